@@ -260,7 +260,9 @@ def populate_stage(B, st, sp, skip=()):
         if "t0" in h:
             st.set_t0(horizon_arg(B, h["t0"]))
     for key, setter in (("der", st.set_der), ("next", st.set_next)):
-        items = sp.get(key, [])
+        items = list(sp.get(key, []))
+        if sp.get("dyn_reversed"):
+            items.reverse()      # the order of set_der / set_next calls is not the order in which the states were declared
         if sp.get("dyn_concat") and not sp.get("der_scale"):
             # one call on a concatenation of the (non-quadrature) states, matrix-shaped ones flattened column-major
             grp = [(n, ex) for n, ex in items if B.decl[n]["kind"] == "state"]
